@@ -87,18 +87,18 @@ theorem applyOps_inv (t : Tree K E) (h : TreeInv t) (ops : List (TxOp K E)) : Tr
 end
 
 section
-variable (p : Params) (pagesize hdr leafHdr branchHdr bmSize : Nat)
+variable {E : Type} (p : Params) (pagesize hdr leafHdr branchHdr : Nat) (esz : Bytes × E → Nat)
 
-theorem commitTree_flatten (steps : List RbStep) (touched : List Bytes) (t : Tree Bytes Ent) (d : Nat)
+theorem commitTree_flatten (steps : List RbStep) (touched : List Bytes) (t : Tree Bytes E) (d : Nat)
     (hu : UniformT d t) :
-    (commitTree p pagesize hdr leafHdr branchHdr bmSize steps touched t).flatten = t.flatten := by
+    (commitTree p pagesize hdr leafHdr branchHdr esz steps touched t).flatten = t.flatten := by
   unfold commitTree
   simp only
   rw [spillRoot_flatten, touchAll_flatten, rebalance_flatten t d hu steps]
 
 theorem commitTree_inv (hp : p.Valid) (h2 : 2 ≤ p.minKeysPerNode) (steps : List RbStep) (touched : List Bytes)
-    (t : Tree Bytes Ent) (h : TreeInv t) :
-    TreeInv (commitTree p pagesize hdr leafHdr branchHdr bmSize steps touched t) := by
+    (t : Tree Bytes E) (h : TreeInv t) :
+    TreeInv (commitTree p pagesize hdr leafHdr branchHdr esz steps touched t) := by
   obtain ⟨d, hu⟩ := h.uniform
   obtain ⟨d1, hu0⟩ := rebalance_uniform steps t d hu
   have hu1 := touchAll_uniform touched _ d1 hu0
@@ -106,10 +106,10 @@ theorem commitTree_inv (hp : p.Valid) (h2 : 2 ≤ p.minKeysPerNode) (steps : Lis
   have ht1 := touchAll_tightM none touched _ (rebalance_tightM t steps (tight_tightM none t h.tight))
   unfold commitTree
   simp only
-  refine ⟨spillRoot_wfs p pagesize hdr leafHdr branchHdr bmSize hp _ _ d1 hw1 hu1, ?_,
-    spillRoot_uniform p pagesize hdr leafHdr branchHdr bmSize _ _ d1 hu1⟩
-  exact spillRoot_tight p pagesize hdr leafHdr branchHdr bmSize _ _ ht1
-    (spillRoot_terminates p pagesize hdr leafHdr branchHdr bmSize hp h2 _ _ (Nat.le_refl _))
+  refine ⟨spillRoot_wfs p pagesize hdr leafHdr branchHdr esz hp _ _ d1 hw1 hu1, ?_,
+    spillRoot_uniform p pagesize hdr leafHdr branchHdr esz _ _ d1 hu1⟩
+  exact spillRoot_tight p pagesize hdr leafHdr branchHdr esz _ _ ht1
+    (spillRoot_terminates p pagesize hdr leafHdr branchHdr esz hp h2 _ _ (Nat.le_refl _))
 
 end
 end Jamm
